@@ -65,8 +65,22 @@ func gr4jParams(r *Rng) []float64 {
 	case 1, 2:
 		x2 = r.Uniform(-10, 0) // losing catchment: the "never creates water" budget applies
 	}
-	x3 := r.LogUniform(1, 500)
-	return []float64{Snap(r, x1), x2, Snap(r, x3), gr4jX4(r)}
+	x3 := Snap(r, r.LogUniform(1, 500))
+	// Numerical conditioning: with a strongly negative exchange coefficient and a tiny routing store the daily map
+	// R -> R + Q9 + x2 (R/x3)^3.5 has slope 1 - 3.5 |x2|/x3 (R/x3)^2.5 < -1: the recurrence oscillates chaotically and
+	// amplifies the <= 3 ulp differences between Go's math.Pow and libm to 1e-5 and more within a few hundred days.
+	// The 1e-9 correspondence is therefore drawn with |x2| <= x3/2 when x2 < 0 (all of x3 >= 20 mm, i.e. the whole
+	// 80 % range of calibrated catchments); the excluded corner is run oracle-only (variant GR4J#stiff).
+	if x2 < -0.5*x3 {
+		x2 = -0.5 * x3 * r.F01()
+	}
+	return []float64{Snap(r, x1), x2, x3, gr4jX4(r)}
+}
+
+// gr4jParamsStiff: the corner excluded above (x3 in [1,6] mm, x2 in [-10,-x3/2]).
+func gr4jParamsStiff(r *Rng) []float64 {
+	x3 := r.Uniform(1, 6)
+	return []float64{Snap(r, r.LogUniform(1, 1500)), r.Uniform(-10, -0.5*x3), x3, gr4jX4(r)}
 }
 
 func gr4jStates(r *Rng, p []float64) []float64 {
@@ -114,6 +128,12 @@ func init() {
 			}
 			return s
 		},
+	})
+
+	regModel(&ModelGen{Name: "GR4J#stiff",
+		Params: gr4jParamsStiff,
+		Inputs: func(r *Rng, T int, p []float64) [][]float64 { return RainPet(r, T) },
+		States: gr4jStates,
 	})
 
 	// Simhyd: all coefficients are fractions, capacities in mm
